@@ -68,16 +68,45 @@ def subtree_job(job: dict) -> str:
 
 
 def run_histories(histories, workdir: str, procs: int) -> dict:
-    """Returns {tuple(path labels): observation}."""
-    import pool
+    """Returns {tuple(path labels): observation}.
 
+    The sessions are forked directly from this process (not from the shared worker pool, whose
+    workers are created once per process and would not be clones of *this* interpreter state)."""
     S.setup()  # parent: define the pool before forking, never execute a step here
     trie = build_trie(histories)
     jobs = []
     for i, (lab, node) in enumerate(sorted(trie.items())):
         jobs.append({"first": lab, "node": node, "out": os.path.join(workdir, f"engine_obs_{os.getpid()}_{i}.jsonl")})
-    # bigger subtrees first
-    pool.map_jobs(subtree_job, jobs, procs=procs, chunksize=1, maxtasks=None)
+    for j in jobs:
+        if os.path.exists(j["out"]):
+            os.unlink(j["out"])
+    sys.stdout.flush()
+    sys.stderr.flush()
+    procs = max(1, min(procs, len(jobs)))
+
+    def size(node):
+        return 1 + sum(size(c) for c in node.values())
+
+    # longest-processing-time-first assignment of subtrees to driver processes
+    loads, groups = [0] * procs, [[] for _ in range(procs)]
+    for j in sorted(jobs, key=lambda j: -size(j["node"])):
+        w = loads.index(min(loads))
+        groups[w].append(j)
+        loads[w] += size(j["node"])
+    pids = []
+    for w in range(procs):
+        pid = os.fork()
+        if pid == 0:
+            code = 0
+            try:
+                for j in groups[w]:
+                    subtree_job(j)
+            except BaseException:  # noqa: BLE001
+                code = 4
+            finally:
+                os._exit(code)
+        pids.append(pid)
+    failed = [pid for pid in pids if os.waitpid(pid, 0)[1] != 0]
     obs = {}
     for j in jobs:
         if os.path.exists(j["out"]):
@@ -85,7 +114,26 @@ def run_histories(histories, workdir: str, procs: int) -> dict:
                 r = json.loads(line)
                 obs[tuple(r["path"])] = r
             os.unlink(j["out"])
+    if failed:
+        raise RuntimeError(f"{len(failed)} session driver processes failed")
     return obs
+
+
+def references(ops, procs: int) -> dict:
+    """reference(op, d) for every (op, d), `procs` fresh interpreter processes at a time."""
+    cmd0 = [sys.executable, os.path.join(os.path.dirname(os.path.abspath(__file__)), "eng_session.py")]
+    out, pending, running = {}, list(ops), []
+    while pending or running:
+        while pending and len(running) < procs:
+            o = pending.pop(0)
+            running.append((o, subprocess.Popen(cmd0 + list(o), stdout=subprocess.PIPE, stderr=subprocess.PIPE, text=True)))
+        o, p = running.pop(0)
+        so, se = p.communicate()
+        line = next((l for l in so.splitlines() if l.startswith("REF ")), None)
+        if line is None:
+            raise RuntimeError(f"reference process failed for {o}:\n{se[-1500:]}")
+        out[tuple(o)] = json.loads(line[4:])
+    return out
 
 
 def norm_expected(st: dict) -> dict:
